@@ -32,7 +32,7 @@ PROP = dict(
     suites=["produce"],
     relevant=lambda op, a, b: True,
     nontrivial=_nontrivial,
-    rule="7 corpus witness scenarios, then 500 (quick) / 3000 (thorough) seeded random scenarios on two fresh real nodes (keys 1, 2) with "
+    rule="9 corpus scenarios (witnesses w1-w6, staking x1, y1), a scripted family of 12 'a delivered block makes pending routing work unspendable' scenarios (one node pools a work-bearing routed tx A and a small tx B, the other node delivers a block with a conflicting spend of A's input, then the first node's producer fires 5.2 s .. 2 heartbeats - 1 ms after the tip; swept over A's fee 12 000/40 000/90 000 and hops 1/2, B's fee 0/150/900, four offsets, which node waits, ticket present/absent), then 500 (quick) / 3000 (thorough) seeded random scenarios on two fresh real nodes (keys 1, 2) with "
          "genesis_period in {5,8,12}, heartbeat 10 s, prune_after in {3,50}: per round a producer (A or B), 0-6 pool transactions "
          "(4 payers, fees 0 / 1 / <100 / <10^4 / <10^5 / exactly at and one above the routing-work threshold / whale fees up to "
          "2*10^8 with 0-400 kB payload, 0-4 routing hops ending at the producer, occasionally an Issuance/ATR/Fee-typed "
